@@ -407,7 +407,7 @@ fn groups(tier: &str) -> Groups {
     let quick = tier == "quick";
     Groups {
         alpha: compact_alphabet(),
-        max_len: if quick { 5 } else { 6 },
+        max_len: if quick { 5 } else { 7 },
         json_forms: json_form_cases(),
         subst: substitution_cases(),
         c08: c08_space(!quick),
